@@ -63,7 +63,7 @@ theorem sound2 {s : Schema} {env : RequestEnv} {w : World} (hWF : SchemaWF2 s) (
         refine ⟨rfl, fun hs _ => ?_⟩
         obtain ⟨u, hu, hty⟩ := hs.slots.2 t hsl
         exact Good.value (v := .prim (.entityUID u)) (by simp [evaluate, hu]) (.entity u _ (by simp [hty]))
-  | .unknown _ _, hf, _, _, _, _ => by simp [InFragment2] at hf
+  | .unknown _ _, _, _, _, _, h => by simp [typeOf] at h
   | .call fn args, hf, caps, τ, c', h => by
     simp only [InFragment2] at hf
     have ih := sound2List hWF henv args hf
